@@ -157,3 +157,32 @@ func checkLabels(t *testing.T, s *scenario, o outcome) {
 		state = ns
 	}
 }
+
+// TestFloodProbe runs every flood cell once (development aid; VERIF_REPRO=1).
+func TestFloodProbe(t *testing.T) {
+	if os.Getenv("VERIF_REPRO") == "" {
+		t.Skip("set VERIF_REPRO=1")
+	}
+	for _, r := range table() {
+		if r.fault != fFlood {
+			continue
+		}
+		for _, p := range r.pos {
+			for _, local := range []bool{false, true} {
+				cs := caseSpec{Scn: r.scn.Name, Fault: r.fault.String(), Pos: p, EndLocal: local, LingerUs: 2000}
+				t0 := time.Now()
+				o := runCase(r.scn, cs, 10*time.Second)
+				fmt.Printf("%-40s pos=%d local=%v %6dms key=%q calls=%+v errs=%v\n", r.scn.Name, p, local, time.Since(t0).Milliseconds(), o.Key, o.Calls, o.ConnErrors)
+				if o.Key != "" || testing.Verbose() && os.Getenv("VERIF_TRACE") != "" {
+					for _, l := range o.Trace {
+						fmt.Println("    ", l)
+					}
+					fmt.Println(o.Dump)
+				}
+				if o.Key != "" {
+					t.Errorf("%s pos %d: %s", r.scn.Name, p, o.Key)
+				}
+			}
+		}
+	}
+}
